@@ -58,6 +58,7 @@ def strategy_(draw, tier):
     case["batch"] = draw(st.integers(1, 3))
     case["choices"] = draw(schedule())
     case["kind"] = "sim"
+    case["via"] = draw(st.sampled_from(["api", "api", "api", "cli"]))
     return case
 
 
@@ -92,12 +93,12 @@ def run_case(case):
             check_output(case, res, text, ref, "real processes, cores=%d batch=%d" % (case["cores"], case["batch"]))
             return core.Result(case["cores"] >= 2, ["real_processes", "cores=%d" % case["cores"]])
         plat = fakemp.Platform(fakemp.Chooser(case["choices"]))
-        res, text = rc.run_realign(case, d, platform=plat, sub="sim.gaf")
+        res, text = rc.run_realign(case, d, platform=plat, sub="sim.gaf", via=case.get("via", "api"))
         check_output(case, res, text, ref, "cores=%d batch=%d schedule=%s" % (case["cores"], case["batch"], case["choices"][:40]))
     nrec = len(case["gaf"])
     nworkers = len(plat.procs)
     groups = len(plat.queues)
-    cl = ["cores=%d" % case["cores"], "workers=%s" % (nworkers if nworkers < 4 else ">=4")]
+    cl = ["cores=%d" % case["cores"], "workers=%s" % (nworkers if nworkers < 4 else ">=4"), "via:" + case.get("via", "api")]
     if plat.timeouts:
         cl.append("timeout")
     if plat.timeouts_in_flight:
